@@ -441,15 +441,15 @@ Section Frame.
   Hypothesis Hrun : forall p s,
     (exists c r, forall b, run p s b = (if b <? c then Err CostExceeded else Ok (c, r))) \/
     (forall b, exists e, run p s b = Err e).
-  Hypothesis Hni : bf_interned fl = false.
 
   Notation sdata := (spend_data H run fl).
   Definition base_cost (L : list cspend) : N := (calculate_generator_length L - QUOTE_BYTES) * cpb.
 
   (* what an accepted run_spendbundle reports, as functions of the oracle outputs *)
-  Definition reported (LL : list ipair) (L : list cspend) (r : bundle * list spend * list (bytes * bytes)) : Prop :=
+  (* [base] = the base cost charged before the loop: (generator length - QUOTE_BYTES) * cpb, or the interned size * cpb *)
+  Definition reported_core (base : N) (LL : list ipair) (r : bundle * list spend * list (bytes * bytes)) : Prop :=
     let b := fst (fst r) in let ps := parsed LL in
-    b_cost b = base_cost L + (costs LL + total_cost cfl ps) /\
+    b_cost b = base + (costs LL + total_cost cfl ps) /\
     b_removal b = tot_removal ps /\ b_addition b = tot_addition ps /\ b_reserve_fee b = tot_fee ps /\
     b_height_absolute b = fold_left N.max (flat_map c_ha (all_known ps)) 0 /\
     b_seconds_absolute b = fold_left N.max (flat_map c_sa (all_known ps)) 0 /\
@@ -457,16 +457,16 @@ Section Frame.
     b_before_seconds_absolute b = fold_left omin (flat_map c_bsa (all_known ps)) None /\
     snd r = pairs_of H K cfl ps.
 
-  Theorem run_spendbundle_iff L max_cost :
-    (exists r, run_spendbundle vk H K run cpb fl L max_cost = Ok r) <->
-    base_cost L <= max_cost /\
+  Theorem rsb_core_iff base L max_cost :
+    (exists r, rsb_core vk H K run fl base L max_cost = Ok r) <->
+    base <= max_cost /\
     (f_limit_spends cfl = true -> N.of_nat (length L) <= MAX_SPENDS_PER_BLOCK) /\
-    exists LL, Forall2 sdata L LL /\ IRules vk H K cfl LL (max_cost - base_cost L).
+    exists LL, Forall2 sdata L LL /\ IRules vk H K cfl LL (max_cost - base).
   Proof.
-    unfold run_spendbundle, calculate_base_cost, bind, subtract_cost. rewrite Hni. fold (base_cost L).
+    unfold rsb_core, bind, subtract_cost.
     split.
     - intros [r Hr].
-      destruct (N.ltb_spec max_cost (base_cost L)) as [|Hb]; [discriminate|].
+      destruct (N.ltb_spec max_cost base) as [|Hb]; [discriminate|].
       destruct (f_limit_spends cfl) eqn:Efl; cbn [andb] in Hr.
       + destruct (N.ltb_spec MAX_SPENDS_PER_BLOCK (N.of_nat (length L))) as [|Hl]; [discriminate|].
         destruct (sb_loop _ _ _ _ _ _ _ _ _) as [[[ret st] cl]|] eqn:Es; [|discriminate].
@@ -481,9 +481,9 @@ Section Frame.
         apply iaccept_iff. exists ret, st, cl. split; assumption.
     - intros (Hb & Hl & LL & F & R).
       apply iaccept_iff in R. destruct R as (ret & st & cl & Ei & Ev).
-      assert (Es : sb_loop vk H K run fl L empty_bundle empty_state (max_cost - base_cost L) = Ok (ret, st, cl))
+      assert (Es : sb_loop vk H K run fl L empty_bundle empty_state (max_cost - base) = Ok (ret, st, cl))
         by (apply (sb_isem vk H K run fl Hrun); exists LL; split; assumption).
-      destruct (N.ltb_spec max_cost (base_cost L)); [lia|].
+      destruct (N.ltb_spec max_cost base); [lia|].
       assert (Hlim : (f_limit_spends cfl && (MAX_SPENDS_PER_BLOCK <? N.of_nat (length L))) = false).
       { destruct (f_limit_spends cfl); [|reflexivity]. cbn [andb]. specialize (Hl eq_refl). destruct (N.ltb_spec MAX_SPENDS_PER_BLOCK (N.of_nat (length L))); [lia|reflexivity]. }
       rewrite Hlim, Es, Ev.
@@ -491,20 +491,20 @@ Section Frame.
       destruct (N.ltb_spec max_cost cl); [lia|]. eexists; reflexivity.
   Qed.
 
-  Theorem run_spendbundle_reported L max_cost r :
-    run_spendbundle vk H K run cpb fl L max_cost = Ok r ->
-    exists LL, Forall2 sdata L LL /\ reported LL L r.
+  Theorem rsb_core_reported base L max_cost r :
+    rsb_core vk H K run fl base L max_cost = Ok r ->
+    exists LL, Forall2 sdata L LL /\ reported_core base LL r.
   Proof.
     intros Hr. pose proof Hr as Hr0.
-    unfold run_spendbundle, calculate_base_cost, bind, subtract_cost in Hr. rewrite Hni in Hr. fold (base_cost L) in Hr.
-    destruct (N.ltb_spec max_cost (base_cost L)) as [|Hb]; [discriminate|].
+    unfold rsb_core, bind, subtract_cost in Hr.
+    destruct (N.ltb_spec max_cost base) as [|Hb]; [discriminate|].
     destruct (f_limit_spends cfl && _); [discriminate|].
     destruct (sb_loop _ _ _ _ _ _ _ _ _) as [[[ret st] cl]|] eqn:Es; [|discriminate].
     destruct (validate_conditions _ _ _ _) as [[]|] eqn:Ev; [|discriminate].
     destruct (N.ltb_spec max_cost cl); [discriminate|]. inversion Hr; subst r; clear Hr.
     apply (sb_isem vk H K run fl Hrun) in Es. destruct Es as (LL & F & Ei).
     exists LL. split; [exact F|].
-    assert (Hacc : IRules vk H K cfl LL (max_cost - base_cost L)) by (apply iaccept_iff; exists ret, st, cl; split; assumption).
+    assert (Hacc : IRules vk H K cfl LL (max_cost - base)) by (apply iaccept_iff; exists ret, st, cl; split; assumption).
     destruct Hacc as (_ & Hc & _).
     pose proof (isem_budget vk H K cfl LL _ _ _ _ _ _ Ei) as Hcl.
     assert (R0 : RColl [] empty_bundle empty_state) by (repeat split).
@@ -512,11 +512,34 @@ Section Frame.
     cbn [empty_bundle empty_state b_removal b_addition b_reserve_fee s_pkm_pairs_rev] in T1, T2, T3, T5.
     unfold bret in T4. cbn [empty_bundle b_height_absolute b_seconds_absolute b_before_height_absolute b_before_seconds_absolute] in T4.
     rewrite fold_beffect in T4. cbn [h_ha h_sa h_bha h_bsa] in T4. injection T4 as A1 A2 A3 A4.
-    unfold reported. cbn [fst snd b_set_cost b_cost b_removal b_addition b_reserve_fee b_height_absolute b_seconds_absolute
+    unfold reported_core. cbn [fst snd b_set_cost b_cost b_removal b_addition b_reserve_fee b_height_absolute b_seconds_absolute
                           b_before_height_absolute b_before_seconds_absolute].
     repeat split; try assumption; try lia.
     rewrite T5, app_nil_r, fast_rev_rev. apply rev_involutive.
   Qed.
+
+  (* ---- the non-interned mempool path: base cost from the generator length ---- *)
+  Definition reported (LL : list ipair) (L : list cspend) (r : bundle * list spend * list (bytes * bytes)) : Prop :=
+    reported_core (base_cost L) LL r.
+
+  Lemma rsb_eq L max_cost :
+    bf_interned fl = false ->
+    run_spendbundle vk H K run cpb fl L max_cost = rsb_core vk H K run fl (base_cost L) L max_cost.
+  Proof. intros Hni. rewrite run_spendbundle_core. unfold calculate_base_cost. rewrite Hni. reflexivity. Qed.
+
+  Theorem run_spendbundle_iff L max_cost :
+    bf_interned fl = false ->
+    ((exists r, run_spendbundle vk H K run cpb fl L max_cost = Ok r) <->
+     base_cost L <= max_cost /\
+     (f_limit_spends cfl = true -> N.of_nat (length L) <= MAX_SPENDS_PER_BLOCK) /\
+     exists LL, Forall2 sdata L LL /\ IRules vk H K cfl LL (max_cost - base_cost L)).
+  Proof. intros Hni. rewrite (rsb_eq L max_cost Hni). apply rsb_core_iff. Qed.
+
+  Theorem run_spendbundle_reported L max_cost r :
+    bf_interned fl = false ->
+    run_spendbundle vk H K run cpb fl L max_cost = Ok r ->
+    exists LL, Forall2 sdata L LL /\ reported LL L r.
+  Proof. intros Hni. rewrite (rsb_eq L max_cost Hni). apply rsb_core_reported. Qed.
 End Frame.
 
 
@@ -556,32 +579,33 @@ Section OrderThm.
   Hypothesis Hrun : forall p s,
     (exists c r, forall b, run p s b = (if b <? c then Err CostExceeded else Ok (c, r))) \/
     (forall b, exists e, run p s b = Err e).
-  Hypothesis Hni : bf_interned fl = false.
   Notation RSB := (run_spendbundle vk H K run cpb fl).
+  Notation CORE := (rsb_core vk H K run fl).
 
   Lemma base_cost_rev L : base_cost cpb (rev L) = base_cost cpb L.
   Proof. unfold base_cost. now rewrite genlen_rev'. Qed.
 
-  Lemma rsb_rev_ok L max_cost : (exists r, RSB L max_cost = Ok r) -> exists r', RSB (rev L) max_cost = Ok r'.
+  (* with the SAME base cost charged, the order of the spends is immaterial *)
+  Lemma core_rev_ok base L max_cost : (exists r, CORE base L max_cost = Ok r) -> exists r', CORE base (rev L) max_cost = Ok r'.
   Proof.
-    intros Hr. apply (run_spendbundle_iff vk H K run cpb fl Hrun Hni) in Hr. destruct Hr as (Hb & Hl & LL & F & R).
-    apply (run_spendbundle_iff vk H K run cpb fl Hrun Hni). rewrite base_cost_rev, rev_length.
+    intros Hr. apply (rsb_core_iff vk H K run fl Hrun) in Hr. destruct Hr as (Hb & Hl & LL & F & R).
+    apply (rsb_core_iff vk H K run fl Hrun). rewrite rev_length.
     split; [exact Hb|]. split; [exact Hl|]. exists (rev LL). split; [now apply Forall2_rev'|].
     apply IRules_rev; [|exact R]. rewrite <- (Forall2_len' _ _ _ F). exact Hl.
   Qed.
 
-  Theorem mempool_order L max_cost :
-    match RSB (rev L) max_cost, RSB L max_cost with
+  Theorem mempool_order_core base L max_cost :
+    match CORE base (rev L) max_cost, CORE base L max_cost with
     | Ok r', Ok r => agg_eq r' r
     | Err _, Err _ => True
     | _, _ => False
     end.
   Proof.
-    destruct (RSB L max_cost) as [r|e] eqn:E; destruct (RSB (rev L) max_cost) as [r'|e'] eqn:E'; try exact I.
-    - destruct (run_spendbundle_reported vk H K run cpb fl Hrun Hni _ _ _ E) as (LL & F & Rp).
-      destruct (run_spendbundle_reported vk H K run cpb fl Hrun Hni _ _ _ E') as (LL' & F' & Rp').
+    destruct (CORE base L max_cost) as [r|e] eqn:E; destruct (CORE base (rev L) max_cost) as [r'|e'] eqn:E'; try exact I.
+    - destruct (rsb_core_reported vk H K run fl Hrun _ _ _ _ E) as (LL & F & Rp).
+      destruct (rsb_core_reported vk H K run fl Hrun _ _ _ _ E') as (LL' & F' & Rp').
       assert (LL' = rev LL) by (eapply (Forall2_fun _ (spend_data_fun vk H run fl Hrun)); [exact F'|now apply Forall2_rev']). subst LL'.
-      unfold reported in Rp, Rp'. rewrite parsed_rev, costs_rev, base_cost_rev in Rp'.
+      unfold reported_core in Rp, Rp'. rewrite parsed_rev, costs_rev in Rp'.
       destruct (totals_perm cfl _ _ (bundle_perm_rev (parsed LL))) as (T1 & T2 & T3 & T4 & T5).
       destruct Rp as (P1 & P2 & P3 & P4 & P5 & P6 & P7 & P8 & P9).
       destruct Rp' as (Q1 & Q2 & Q3 & Q4 & Q5 & Q6 & Q7 & Q8 & Q9).
@@ -592,9 +616,22 @@ Section OrderThm.
       + apply fold_omin_perm, flat_map_perm, Permutation_sym, T5.
       + apply fold_omin_perm, flat_map_perm, Permutation_sym, T5.
       + unfold pairs_of. destruct (f_dont_validate cfl); [constructor|]. unfold all_pairs. apply flat_map_perm, Permutation_sym, Permutation_rev.
-    - destruct (rsb_rev_ok L max_cost (ex_intro _ r E)) as [x Hx]. congruence.
-    - assert (Hx : exists x, RSB (rev (rev L)) max_cost = Ok x) by (apply rsb_rev_ok; eexists; exact E').
+    - destruct (core_rev_ok base L max_cost (ex_intro _ r E)) as [x Hx]. congruence.
+    - assert (Hx : exists x, CORE base (rev (rev L)) max_cost = Ok x) by (apply core_rev_ok; eexists; exact E').
       rewrite rev_involutive in Hx. destruct Hx as [x Hx]. congruence.
+  Qed.
+
+  Hypothesis Hni : bf_interned fl = false.
+
+  Theorem mempool_order L max_cost :
+    match RSB (rev L) max_cost, RSB L max_cost with
+    | Ok r', Ok r => agg_eq r' r
+    | Err _, Err _ => True
+    | _, _ => False
+    end.
+  Proof.
+    rewrite (rsb_eq vk H K run cpb fl L max_cost Hni), (rsb_eq vk H K run cpb fl (rev L) max_cost Hni), base_cost_rev.
+    apply mempool_order_core.
   Qed.
 End OrderThm.
 
